@@ -112,6 +112,18 @@ func c16LeafValidated(w *World, valid map[*ssa.Function]string, fn *ssa.Function
 			return true
 		}
 	}
+	// a field of an object of an unexported struct type of the module (a result object such as `source.pluginName`): every store
+	// into that field anywhere in the module stores a validated value, and every function that allocates such an object and
+	// hands it out stores the field on the way to each return that hands it out (the zero value "" is not a validated name)
+	if ld, ok := l.(*ssa.UnOp); ok && ld.Op == token.MUL && depth <= 3 {
+		if fa, ok := ld.X.(*ssa.FieldAddr); ok {
+			if nt := namedStructOf(fa.X.Type()); nt != nil && nt.Obj().Pkg() != nil && strings.HasPrefix(nt.Obj().Pkg().Path(), modPath) && !token.IsExported(nt.Obj().Name()) {
+				if c16FieldValidated(w, valid, nt, fa.Field, depth) {
+					return true
+				}
+			}
+		}
+	}
 	p, ok := l.(*ssa.Parameter)
 	if !ok || depth > 3 || token.IsExported(fn.Name()) || fn.Parent() != nil {
 		return false
@@ -186,6 +198,71 @@ func c16LeafValidated(w *World, valid map[*ssa.Function]string, fn *ssa.Function
 		}
 	}
 	return sites > 0
+}
+
+func c16FieldValidated(w *World, valid map[*ssa.Function]string, nt *types.Named, field int, depth int) bool {
+	stores := 0
+	for _, F := range w.Funcs {
+		for _, b := range F.Blocks {
+			for _, in := range b.Instrs {
+				switch x := in.(type) {
+				case *ssa.Store:
+					fa, ok := x.Addr.(*ssa.FieldAddr)
+					if ok && fa.Field == field && namedStructOf(fa.X.Type()) == nt {
+						stores++
+						var leaves []ssa.Value
+						var consts []string
+						leafValues(w, x.Val, 0, &leaves, &consts)
+						if len(consts) > 0 {
+							return false
+						}
+						for _, al := range leaves {
+							if !c16LeafValidated(w, valid, F, x, al, depth+1) {
+								return false
+							}
+						}
+						continue
+					}
+					// a whole-object store would set the field without passing here
+					if ok2 := namedStructOf(x.Val.Type()) == nt; ok2 {
+						if _, isPtr := x.Val.Type().Underlying().(*types.Pointer); !isPtr {
+							return false
+						}
+					}
+				case *ssa.Alloc:
+					if namedStructOf(x.Type()) != nt {
+						continue
+					}
+					// handed out by a return: the field is stored in a block that dominates that return
+					for _, rb := range F.Blocks {
+						r, isRet := blockTerm(rb).(*ssa.Return)
+						if !isRet {
+							continue
+						}
+						for _, rv := range r.Results {
+							if canonPtr(rv) != ssa.Value(x) {
+								continue
+							}
+							dom := false
+							for _, sb := range F.Blocks {
+								for _, sin := range sb.Instrs {
+									if st, ok := sin.(*ssa.Store); ok {
+										if fa, ok := st.Addr.(*ssa.FieldAddr); ok && fa.Field == field && canonPtr(fa.X) == ssa.Value(x) && sb.Dominates(rb) {
+											dom = true
+										}
+									}
+								}
+							}
+							if !dom {
+								return false
+							}
+						}
+					}
+				}
+			}
+		}
+	}
+	return stores > 0
 }
 
 // certifiedValidators returns the product functions func(string) error /
